@@ -281,6 +281,11 @@ def _chain(rc: RuleCtx, name: str, pop_signs):
         frp.block(loop.body[:loop.body.index(w)], benv, TRUE)
     except Unsupported as e:
         raise AnalysisError(f"{fi.qualname}: scan body not modelled: {e}")
+    # the scan itself is never left early: a break / return at the level of the scan loop stops offering indices
+    early_ = [n_ for st_ in loop.body if st_ is not w for n_ in ast.walk(st_) if isinstance(n_, (ast.Break, ast.Return))]
+    if early_:
+        res.violation("H3", mod, fi.name, early_[0], "the scan can be left before every index was offered to the chain (a break / return at the level of the scan loop)",
+                      ast.unparse(mod.parent(early_[0]) or early_[0])[:100] if hasattr(mod, "parent") else "break", "no exit from the scan loop", construct="scan left early")
     # popping loop only pops
     wenv = dict(benv)
     from .common import carry
